@@ -6,9 +6,12 @@ import PhysisModel.Spec.Mdl
 the library's own writer produces.  The format does not demand it: every mesh row carries an
 explicit `vertex_buffer_offsets[stream]`, so a LOD's vertex section may hold the streams in any
 order (stream-major `[m0s0][m1s0][m0s1][m1s1]`, reversed), with gaps / alignment padding between
-them, or share bytes between streams.
+them, or share bytes between streams; and nothing says that a LOD's index section starts where its
+vertex section ends (models with edge geometry keep that data in between) or that a vertex
+section starts where the previous LOD ends.
 
-A `Placement` gives, per LOD, the vertex section **byte for byte** and, per mesh (numbered through
+A `Placement` gives, per LOD, the vertex section **byte for byte**, the bytes in front of it and
+between it and the index section (counted in no section size) and, per mesh (numbered through
 the whole model like the mesh table) and stream, the offset of the stream inside its LOD's
 section.  `PlacedOk` says that every stream's bytes are found at its offset, inside the section —
 nothing else is asked (no order, no disjointness).  `encodeMdlP` is the file: the same runtime
@@ -26,12 +29,17 @@ open Physis Physis.Mdl
 structure Placement where
   vsecs : List Bytes            -- per LOD: the whole vertex section
   offs : List (List Nat)        -- per mesh (model-wide mesh index), per stream: offset in the section
+  vpre : List Bytes             -- per LOD: bytes in front of the vertex section (in no section)
+  ipre : List Bytes             -- per LOD: bytes between the vertex and the index section
+                                --   (in no section; where edge geometry data lives)
 deriving DecidableEq, Repr, Inhabited
 
 /-- model-wide index of the first mesh of LOD `i` -/
 def meshBase (m : AbstractModel) (i : Nat) : Nat := ((m.lods.take i).map (fun l => l.meshes.length)).sum
 
 def Placement.vsec (p : Placement) (i : Nat) : Bytes := p.vsecs.getD i []
+def Placement.vgap (p : Placement) (i : Nat) : Bytes := p.vpre.getD i []
+def Placement.igap (p : Placement) (i : Nat) : Bytes := p.ipre.getD i []
 
 /-- offset of stream `j` of the mesh with model-wide index `k` -/
 def Placement.off (p : Placement) (k j : Nat) : Nat := (p.offs.getD k []).getD j 0
@@ -50,13 +58,25 @@ def PlacedOk (m : AbstractModel) (p : Placement) : Bool :=
 
 /-! ### layout -/
 
-/-- size of the two sections of LOD `i` -/
-def secSizeP (m : AbstractModel) (p : Placement) (i : Nat) : Nat :=
-  (p.vsec i).length + lodIndexSize (m.lods.getD i default)
+/-- the bytes of LOD `i`: gap, vertex section, gap, index section -/
+def lodBytesP (m : AbstractModel) (p : Placement) (i : Nat) : Bytes :=
+  p.vgap i ++ (p.vsec i ++ (p.igap i ++ indexSection (m.lods.getD i default)))
 
-/-- file offset of the vertex section of LOD `i` when the sections start at `ds` -/
+/-- their number -/
+def secSizeP (m : AbstractModel) (p : Placement) (i : Nat) : Nat :=
+  (p.vgap i).length + ((p.vsec i).length + ((p.igap i).length + lodIndexSize (m.lods.getD i default)))
+
+/-- file offset of the bytes of LOD `i` when the sections start at `ds` -/
 def secOffP (m : AbstractModel) (p : Placement) (ds i : Nat) : Nat :=
   ds + (((List.range m.lods.length).take i).map (secSizeP m p)).sum
+
+/-- file offset of the vertex section of LOD `i` -/
+def vOffP (m : AbstractModel) (p : Placement) (ds i : Nat) : Nat :=
+  secOffP m p ds i + (p.vgap i).length
+
+/-- file offset of the index section of LOD `i` -/
+def iOffP (m : AbstractModel) (p : Placement) (ds i : Nat) : Nat :=
+  vOffP m p ds i + (p.vsec i).length + (p.igap i).length
 
 def lodRowP (m : AbstractModel) (p : Placement) (ds i : Nat) : MeshLod :=
   let l := m.lods.getD i default
@@ -67,8 +87,8 @@ def lodRowP (m : AbstractModel) (p : Placement) (ds i : Nat) : MeshLod :=
     polygonCount := l.polygonCount
     vertexBufferSize := (p.vsec i).length.toUInt32
     indexBufferSize := (lodIndexSize l).toUInt32
-    vertexDataOffset := (secOffP m p ds i).toUInt32
-    indexDataOffset := (secOffP m p ds i + (p.vsec i).length).toUInt32 }
+    vertexDataOffset := (vOffP m p ds i).toUInt32
+    indexDataOffset := (iOffP m p ds i).toUInt32 }
 
 def lodRowsP (m : AbstractModel) (p : Placement) (ds : Nat) : List MeshLod :=
   (List.range m.lods.length).map (lodRowP m p ds)
@@ -101,7 +121,7 @@ def fileHeaderP (m : AbstractModel) (p : Placement) : FileHeader :=
     indexBufferSize := Arr3.ofList 0 (rows.map (·.indexBufferSize)) }
 
 def sectionsP (m : AbstractModel) (p : Placement) : Bytes :=
-  (List.range m.lods.length).flatMap fun i => p.vsec i ++ indexSection (m.lods.getD i default)
+  (List.range m.lods.length).flatMap (lodBytesP m p)
 
 /-- **the encoder for an arbitrary placement of the vertex streams** -/
 def encodeMdlP (m : AbstractModel) (p : Placement) : Bytes :=
@@ -116,6 +136,8 @@ def WFP (m : AbstractModel) (p : Placement) : Bool :=
 
 def canonP (m : AbstractModel) : Placement :=
   { vsecs := m.lods.map vertexSection
-    offs := (allMeshRows 0 m.lods).map fun row => row.vertexBufferOffsets.toList.map (·.toNat) }
+    offs := (allMeshRows 0 m.lods).map fun row => row.vertexBufferOffsets.toList.map (·.toNat)
+    vpre := []
+    ipre := [] }
 
 end Physis.Spec.Mdl
